@@ -118,6 +118,13 @@ pub struct Ca {
     pub objects: Vec<Obj>,
     /// Is the repository (rsync module) unreachable (rsync exits non-zero)?
     pub unreachable: bool,
+    /// If set, this "CA" is a second certificate for the key of the given
+    /// (ancestor) CA pointing at that CA's publication point: a cycle.
+    #[serde(default)]
+    pub alias_of: Option<usize>,
+    /// Does the CA additionally hold 0.0.0.0/0 and ::/0?
+    #[serde(default)]
+    pub slash0: bool,
 }
 
 #[derive(Clone, Debug, PartialEq, Eq, Hash, Serialize, Deserialize)]
@@ -158,6 +165,7 @@ impl World {
 
     /// All block indices a CA holds: own, descendants', extras.
     pub fn blocks(&self, ca: usize) -> Vec<usize> {
+        if let Some(t) = self.cas[ca].alias_of { return vec![t] }
         let mut out = vec![ca];
         out.extend(self.cas[ca].extra_blocks.iter().cloned());
         for c in self.children(ca) { out.extend(self.blocks(c)); }
@@ -172,9 +180,11 @@ impl World {
     }
 
     pub fn host(&self, repo: usize) -> String { format!("r{repo}.rpki.test") }
-    pub fn ca_repository(&self, ca: usize) -> String { format!("rsync://{}/repo/ca{}/", self.host(self.cas[ca].repo), ca) }
-    pub fn manifest_uri(&self, ca: usize) -> String { format!("{}ca{}.mft", self.ca_repository(ca), ca) }
-    pub fn crl_uri(&self, ca: usize) -> String { format!("{}ca{}.crl", self.ca_repository(ca), ca) }
+    /// The CA whose publication point `ca` uses (itself unless it is an alias).
+    pub fn point_of(&self, ca: usize) -> usize { self.cas[ca].alias_of.unwrap_or(ca) }
+    pub fn ca_repository(&self, ca: usize) -> String { let ca = self.point_of(ca); format!("rsync://{}/repo/ca{}/", self.host(self.cas[ca].repo), ca) }
+    pub fn manifest_uri(&self, ca: usize) -> String { let ca = self.point_of(ca); format!("{}ca{}.mft", self.ca_repository(ca), ca) }
+    pub fn crl_uri(&self, ca: usize) -> String { let ca = self.point_of(ca); format!("{}ca{}.crl", self.ca_repository(ca), ca) }
     pub fn notify_uri(&self, repo: usize) -> String { format!("https://{}/rrdp/notification.xml", self.host(repo)) }
     pub fn ta_uri(&self, tal: usize, n: usize) -> String { format!("rsync://ta{}u{}.rpki.test/ta/root.cer", tal, n) }
     pub fn object_uri(&self, ca: usize, obj: &Obj) -> String { format!("{}{}", self.ca_repository(ca), obj.name) }
@@ -280,7 +290,7 @@ pub fn generate(rng: &mut Rng, now: Ts, p: &GenParams) -> World {
                 id, parent, tal: t, key: next_key % super::keys::CA_KEYS, repo, rrdp: false, extra_blocks: Vec::new(),
                 mft_number: 1 + rng.below(1000), mft_this: this, mft_next: next, mft_ee_nb: this - 60, mft_ee_na: next + rng.below(3 * DAY as u64) as Ts,
                 mft_serial: 1, crl_this: this, crl_next: next + rng.below(DAY as u64) as Ts,
-                point_faults: Vec::new(), fault_target: 0, objects: Vec::new(), unreachable: false,
+                point_faults: Vec::new(), fault_target: 0, objects: Vec::new(), unreachable: false, alias_of: None, slash0: false,
             });
             next_key += 1;
             if let Some(pp) = parent {
@@ -370,4 +380,37 @@ pub fn apply_point_fault(w: &mut World, ca: usize, f: PointFault, rng: &mut Rng)
         PointFault::CrlStale => { c.crl_next = now - 1800; c.crl_this = now - 2 * DAY; }
         _ => {}
     }
+}
+
+/// Adds a cycle: CA `from` issues a certificate for the key of its ancestor
+/// `to`, pointing at `to`'s publication point. Returns the alias CA's id.
+pub fn add_cycle(w: &mut World, from: usize, to: usize) -> usize {
+    let id = w.cas.len();
+    let now = w.now;
+    let mut c = w.cas[to].clone();
+    c.id = id; c.parent = Some(from); c.alias_of = Some(to); c.objects = Vec::new(); c.point_faults = Vec::new(); c.extra_blocks = Vec::new();
+    w.cas.push(c);
+    let serial = 500 + w.cas[from].objects.len() as u64;
+    w.cas[from].objects.push(Obj { name: format!("ca{id}.cer"), kind: ObjKind::ChildCa(id), serial, nb: now - 2 * DAY, na: now + 90 * DAY, fault: None, salt: 0 });
+    id
+}
+
+/// A TAL with a single chain of `len` CAs below the TA, each with `objs` objects.
+pub fn gen_chain(rng: &mut Rng, now: Ts, len: usize, objs: usize) -> World {
+    let mut w = World { now, tals: vec![Tal { name: "chain".into(), root: 0, uris: vec![TaState::Good], ta_nb: now - YEAR, ta_na: now + 10 * YEAR }], cas: Vec::new() };
+    for id in 0..=len {
+        let this = now - 3600; let next = now + 3 * DAY;
+        w.cas.push(Ca { id, parent: if id == 0 { None } else { Some(id - 1) }, tal: 0, key: id % super::keys::CA_KEYS, repo: id % 2, rrdp: false, extra_blocks: Vec::new(),
+            mft_number: 5, mft_this: this, mft_next: next, mft_ee_nb: this - 60, mft_ee_na: next + DAY, mft_serial: 1, crl_this: this, crl_next: next,
+            point_faults: Vec::new(), fault_target: 0, objects: Vec::new(), unreachable: false, alias_of: None, slash0: false });
+        if id > 0 {
+            let serial = 10 + w.cas[id - 1].objects.len() as u64;
+            w.cas[id - 1].objects.push(Obj { name: format!("ca{id}.cer"), kind: ObjKind::ChildCa(id), serial, nb: now - 2 * DAY, na: now + 90 * DAY, fault: None, salt: 0 });
+        }
+    }
+    for id in 0..=len {
+        let blocks = w.blocks(id);
+        for k in 0..objs { let serial = 100 + w.cas[id].objects.len() as u64; let o = gen_object(rng, now, id, &blocks, k, serial); w.cas[id].objects.push(o); }
+    }
+    w
 }
